@@ -164,3 +164,28 @@ Theorem C15_tz64_spec : forall x, x < 2 ^ 64 -> x <> 0 ->
   tz64 x < 64 /\ N.testbit x (tz64 x) = true /\ (forall j, j < tz64 x -> N.testbit x j = false).
 Proof. exact BitsLemmas.tz64_spec. Qed.
 Print Assumptions C15_tz64_spec.
+
+(* ---------- Card <-> u8, Card <-> (Rank, Suit) ---------- *)
+From RP Require Proofs.C15_Card.
+(* In Rust `Card` is a newtype over u8 and From<Card> for u8 / From<u8> for Card return that byte
+   unchanged; the model represents a card BY that byte, so there is no u8 codec function whose
+   round trip could be stated (it is the identity by construction, and trivially injective).
+   What the byte must support is the (rank, suit) reading used everywhere else:
+   Card::rank / Card::suit / Card::from((Rank, Suit)) are lossless and panic-free on the deck. *)
+Theorem C15_card_rank_suit : forall c, c < 52 ->
+  rank_of_u8 (card_rank c) = Some (card_rank c) /\ card_rank c <= 12 /\ card_suit c < 4 /\
+  card_of_rank_suit (card_rank c) (card_suit c) = c.
+Proof. exact C15_Card.card_split. Qed.
+Print Assumptions C15_card_rank_suit.
+Theorem C15_card_of_rank_suit : forall r s, r <= 12 -> s < 4 ->
+  card_of_rank_suit r s < 52 /\ card_of_rank_suit r s < 256 /\
+  card_rank (card_of_rank_suit r s) = r /\ card_suit (card_of_rank_suit r s) = s.
+Proof. exact C15_Card.card_join. Qed.
+Print Assumptions C15_card_of_rank_suit.
+Theorem C15_card_rank_suit_inj : forall c c',
+  card_rank c = card_rank c' -> card_suit c = card_suit c' -> c = c'.
+Proof. exact C15_Card.card_rank_suit_inj. Qed.
+Print Assumptions C15_card_rank_suit_inj.
+Example C15_card_rank_suit_hyp :
+  39 < 52 /\ card_rank 39 = 9 /\ card_suit 39 = 3 /\ 9 <= 12 /\ 3 < 4 /\ card_of_rank_suit 9 3 = 39.
+Proof. repeat split; vm_compute; congruence. Qed.
